@@ -80,6 +80,8 @@ pub struct BuildObs {
     /// payload read back (core decrypt/verify with the footer/assertion in force) and parsed as JSON
     pub payload: Option<Map<String, Value>>,
     pub readback: String,
+    /// built while a sealing fault was injected (unusable key material in force, or the RNG failing): no verdict on this build
+    pub faulted: bool,
 }
 
 pub struct Run {
@@ -117,8 +119,11 @@ pub fn observe(c: &Case, outs: Vec<Out<String>>, before: i128, after: i128) -> R
     let mut footer: Option<String> = None;
     let mut ia: Option<String> = None;
     let mut bi = 0;
+    let (mut bad_key, mut rng_fault) = (false, false);
     for (i, op) in c.ops.iter().enumerate() {
         match op {
+            BOp::UseKey(k) => bad_key = **k != c.key,
+            BOp::RngFault(on) => rng_fault = *on,
             BOp::Footer(f) => footer = Some(f.clone()),
             BOp::Assertion(a) if c.p.has_assertion() => ia = Some(a.clone()),
             BOp::Build => {
@@ -134,7 +139,7 @@ pub fn observe(c: &Case, outs: Vec<Out<String>>, before: i128, after: i128) -> R
                     },
                     _ => (None, String::new()),
                 };
-                builds.push(BuildObs { at: i, out, payload, readback });
+                builds.push(BuildObs { at: i, out, payload, readback, faulted: bad_key || (rng_fault && c.p.is_local()) });
             }
             _ => {}
         }
@@ -341,6 +346,7 @@ fn word_string(ops: &[BOp]) -> String {
             BOp::Assertion(_) => "assertion".into(),
             BOp::Build => "BUILD".into(),
             BOp::UseKey(_) => "use-key".into(),
+            BOp::RngFault(on) => if *on { "rng-fault-on".into() } else { "rng-fault-off".into() },
         })
         .collect::<Vec<_>>()
         .join(" ")
@@ -355,6 +361,10 @@ pub fn check_c13(c: &Case, run: &Run, r: &mut Report) {
     for b in &run.builds {
         nth += 1;
         r.evaluations += 1;
+        if b.faulted {
+            r.count(&format!("build under an injected sealing fault (no verdict) [{}]", b.out.class()));
+            continue;
+        }
         let m = model(&c.ops[..b.at]);
         let which = if nth == 1 { "first-build" } else { "later-build" };
         let tag = format!("{} {}", c.p.name(), which);
@@ -481,6 +491,10 @@ pub fn check_c17(c: &Case, run: &Run, r: &mut Report) {
     for b in &run.builds {
         nth += 1;
         r.evaluations += 1;
+        if b.faulted {
+            r.count(&format!("build under an injected sealing fault (no verdict) [{}]", b.out.class()));
+            continue;
+        }
         let m = model(&c.ops[..b.at]);
         let dups: Vec<&String> = m.supplied.iter().filter(|(_, v)| v.len() >= 2).map(|(k, _)| k).collect();
         let definite = !dups.is_empty();
@@ -714,6 +728,62 @@ pub fn run(prop: &str, tier: &str, seed: u64) -> Report {
         r.count(&format!("random words {}", p.name()));
     });
     total.merge(r);
+    // a build that FAILS IN THE SEALING STEP (unusable private-key material on the public protocols, an injected RNG failure on
+    // the local ones - hook verif::set_rng_fault) in the middle of a builder's life: whatever that call left behind, the builds
+    // that follow are judged like any other
+    {
+        let nf = if thorough { 6000 } else { 400 };
+        let r = parallel(nf * ALL.len(), util::threads(), |i, r| {
+            let p = ALL[i % ALL.len()];
+            if (p == P::V1P || p == P::V3P) && (i / ALL.len()) % 8 != 0 {
+                return;
+            }
+            let mut rng = Rng::new(seed, "c13-seal-fault", (i as u64) << 1 | (prop == "C17") as u64);
+            let key = pools.key(p, i % pools.count(p));
+            let gen = |rng: &mut Rng, n: usize| -> Vec<usize> { (0..n).map(|_| rng.below(k - 1)).collect() };
+            let (n1, n2) = (rng.below(4), rng.below(3));
+            let (s1, s2) = (gen(&mut rng, n1), gen(&mut rng, n2));
+            // one occurrence counter over both halves, so that a repeated setter still uses a different value
+            let mut all = s1.clone();
+            all.extend(s2.iter().copied());
+            let mut ops_all = syms_to_ops(prop, &all);
+            ops_all.pop(); // the appended final build
+            let (head, tail) = ops_all.split_at(s1.len());
+            let mut ops: Vec<BOp> = head.to_vec();
+            if rng.chance(1, 3) {
+                ops.push(BOp::Build);
+            }
+            if p.is_local() {
+                ops.push(BOp::RngFault(true));
+                ops.push(BOp::Build);
+                if rng.chance(1, 4) {
+                    ops.push(BOp::Build);
+                }
+                ops.push(BOp::RngFault(false));
+            } else {
+                let mut bad = key.clone();
+                for b in bad.sk.iter_mut() {
+                    *b = 0xff;
+                }
+                ops.push(BOp::UseKey(Box::new(bad)));
+                ops.push(BOp::Build);
+                ops.push(BOp::UseKey(Box::new(key.clone())));
+            }
+            ops.extend(tail.iter().cloned());
+            ops.push(BOp::Build);
+            if rng.chance(1, 3) {
+                ops.push(BOp::Build);
+            }
+            let c = Case { p, key, ops };
+            let before = r.violations_total;
+            judge(prop, &c, r);
+            if r.violations_total == before {
+                r.count("histories with a failed sealing step conform");
+            }
+        });
+        total.merge(r);
+        total.require("histories with a failed sealing step conform", (nf * 6 / 2) as u64);
+    }
     // different keys that collide under common hashes / truncations are NOT a repetition (C17), and both must arrive (C13: n/a)
     if prop == "C17" {
         let mut rc = Report::new();
@@ -917,5 +987,5 @@ pub fn replay_pair(prop: &str, case: &Value) -> Report {
     r
 }
 
-pub const RULE_C13: &str = "call words over {set exp, set nbf, set iat, set iss, set custom a, set custom 'Exp' / 'IAT' / 'Nbf' (custom claims that equal a time claim up to case), an attempt to set a custom claim named exactly exp (null) or nbf (refused by the constructor in both forms: must leave no trace), acknowledge, set_footer, set_implicit_assertion, build} (a final build is appended to words that do not end in one): ALL words up to length 4 (thorough 6) on v4.local, seeded random words up to length 12 on all 8 protocols; plus 614 (thorough 20014) builders created at instants of a VIRTUAL clock (hook verif::set_now: year/leap-day boundaries, the last and first second of a minute / hour / day / month / year, 2^31 s, the i64-ns limit, up to year 8999, random, odd sub-second parts) whose defaults must be exactly (now+1h, now, now). Plus 3000 (thorough 40000) PAIRS of builders (same or different protocols) alive at once on one thread with their operations interleaved in a seeded order: each must behave exactly as if it were alone. Plus 4000 (thorough 60000) barrier-released ROUNDS of up to 8 builders on DIFFERENT threads at once (custom claim names new to the process in every round, shared by the threads of the round), each judged as if alone. Every token of every successful build (first and later builds of one builder) is read back and compared with a state machine written from the property: exp present iff not acknowledged; default exp == creation + 3600.000000000 s, default iat == default nbf within the clock bracket taken around the run (5 ms slack); caller-supplied exp/iat/nbf values present. distinct_nontrivial = distinct (protocol, word, build number) that built and conformed; caller-supplied instants lie on both sides of the creation time and of creation + 1 h";
-pub const RULE_C17: &str = "call words over {set_claim(k) for k in exp,nbf,iat,iss,sub,aud,jti,a,b,userId,Role,role; acknowledge; set_footer; build} (a final build appended): ALL words up to length 4 (thorough 5) on v4.local, seeded random words up to length 40 on all 8 protocols; 3000 (thorough 40000) PAIRS of builders (same or different protocols) alive at once on one thread with their operations interleaved in a seeded order, each judged as if alone; 4000 (thorough 60000) barrier-released ROUNDS of up to 8 builders on DIFFERENT threads at once (custom claim names new to the process in every round, shared by the threads of the round; half of the setters are custom claims), each judged as if alone; every occurrence of a setter uses a different value. Plus ~45 pairs of DIFFERENT custom keys that collide under FNV-1/1a, the 31-multiplier hash, djb2, CRC-32, byte sums, truncation (8..256 bytes, u8/u16 characters), NFC/NFD or an embedded NUL: setting both is not a repetition, setting one of them again is; 255/256/257/600 distinct keys on one builder, then one of them again. Model: once any key has been supplied twice every build must fail with the duplicate-claim error naming one of the duplicated keys; otherwise every build must succeed and carry the caller's values; exp supplied after the acknowledgement may be refused as duplicate or ignored. distinct_nontrivial = distinct (protocol, word, build number, outcome class)";
+pub const RULE_C13: &str = "call words over {set exp, set nbf, set iat, set iss, set custom a, set custom 'Exp' / 'IAT' / 'Nbf' (custom claims that equal a time claim up to case), an attempt to set a custom claim named exactly exp (null) or nbf (refused by the constructor in both forms: must leave no trace), acknowledge, set_footer, set_implicit_assertion, build} (a final build is appended to words that do not end in one): ALL words up to length 4 (thorough 6) on v4.local, seeded random words up to length 12 on all 8 protocols; plus 614 (thorough 20014) builders created at instants of a VIRTUAL clock (hook verif::set_now: year/leap-day boundaries, the last and first second of a minute / hour / day / month / year, 2^31 s, the i64-ns limit, up to year 8999, random, odd sub-second parts) whose defaults must be exactly (now+1h, now, now). Plus 3000 (thorough 40000) PAIRS of builders (same or different protocols) alive at once on one thread with their operations interleaved in a seeded order: each must behave exactly as if it were alone. Plus 4000 (thorough 60000) barrier-released ROUNDS of up to 8 builders on DIFFERENT threads at once (custom claim names new to the process in every round, shared by the threads of the round), each judged as if alone. Plus histories in which one build FAILS IN THE SEALING STEP (unusable private-key material / injected RNG failure through the hook verif::set_rng_fault; no verdict on that build) and the builds that follow are judged like any other. Every token of every successful build (first and later builds of one builder) is read back and compared with a state machine written from the property: exp present iff not acknowledged; default exp == creation + 3600.000000000 s, default iat == default nbf within the clock bracket taken around the run (5 ms slack); caller-supplied exp/iat/nbf values present. distinct_nontrivial = distinct (protocol, word, build number) that built and conformed; caller-supplied instants lie on both sides of the creation time and of creation + 1 h";
+pub const RULE_C17: &str = "call words over {set_claim(k) for k in exp,nbf,iat,iss,sub,aud,jti,a,b,userId,Role,role; acknowledge; set_footer; build} (a final build appended): ALL words up to length 4 (thorough 5) on v4.local, seeded random words up to length 40 on all 8 protocols; 3000 (thorough 40000) PAIRS of builders (same or different protocols) alive at once on one thread with their operations interleaved in a seeded order, each judged as if alone; 4000 (thorough 60000) barrier-released ROUNDS of up to 8 builders on DIFFERENT threads at once (custom claim names new to the process in every round, shared by the threads of the round; half of the setters are custom claims), each judged as if alone; histories in which one build fails in the sealing step (unusable private-key material / injected RNG failure; no verdict on that build) and the following builds are judged like any other; every occurrence of a setter uses a different value. Plus ~45 pairs of DIFFERENT custom keys that collide under FNV-1/1a, the 31-multiplier hash, djb2, CRC-32, byte sums, truncation (8..256 bytes, u8/u16 characters), NFC/NFD or an embedded NUL: setting both is not a repetition, setting one of them again is; 255/256/257/600 distinct keys on one builder, then one of them again. Model: once any key has been supplied twice every build must fail with the duplicate-claim error naming one of the duplicated keys; otherwise every build must succeed and carry the caller's values; exp supplied after the acknowledgement may be refused as duplicate or ignored. distinct_nontrivial = distinct (protocol, word, build number, outcome class)";
